@@ -197,6 +197,18 @@ def gen(tier, rnd):
         case(sl, [1] * n, mx)
         for c1 in range(len(CSM) + len(C['get0']), len(CSM) + len(C['get0']) + len(hdr) + 1):
             case(sl, cuts_to_chunks(n, [c1]), mx)
+    # the peer's own CSM announces a Max-Message-Size far above what this endpoint accepts (that is the peer's receive limit, not ours): a
+    # message above OUR limit still closes the session, one at our limit is delivered
+    CSM_BIG = bytes([0x40, 0xe1, 0x23, 0x01, 0x86, 0xa0])
+    for (mx, L) in ((1500, 3000), (1152, 5004), (1500, 70000), (2000, 99000)):
+        hdr = bytes([(14 << 4) | 1, (L - 269) >> 8, (L - 269) & 255, 1, 0x01]) if L < 65805 else bytes([(15 << 4) | 1]) + (L - 65805).to_bytes(4, 'big') + bytes([1, 0x01])
+        sl = lit([CSM_BIG, C['get0'], hdr, b'\xb1a\xff' + b'x' * 40])
+        n = len(CSM_BIG) + len(C['get0']) + len(hdr) + 43
+        case(sl, [], mx)
+        case(sl, [1] * n, mx)
+        case(sl, cuts_to_chunks(n, [len(CSM_BIG) + len(C['get0']) + 2]), mx)
+    sl = ['K 9 1200', 'S ' + (CSM_BIG + enc_tcp(3, b'\x05', body=b'\xb1a\xff' + b'\x00' * 1200)[:-1200]).hex(), 'P 9 1200', 'S ' + C['get0'].hex()]
+    case(sl, [], 1500)
     # just below the maximum: delivered
     sl = ['K 9 1200', 'S ' + (CSM + enc_tcp(3, b'\x05', body=b'\xb1a\xff' + b'\x00' * 1200)[:-1200]).hex(), 'P 9 1200', 'S ' + C['get0'].hex()]
     case(sl, [], 1500)
@@ -291,7 +303,12 @@ def gen(tier, rnd):
 
     def agent(k):          # a header line with exactly k bytes in front of its LF (CR included)
         return b'User-Agent: ' + b'x' * (k - 13)
-    hs_variants = [(0, upgrade(order=[5, 4, 3, 2, 1, 0])), (0, upgrade(eol=b'\n')), (0, upgrade(spell=1)), (0, upgrade(extra=[b'Origin: http://example.org', b'X-Empty:  ']))]
+    # optional whitespace after the colon is SP or HTAB (RFC 7230 3.2): every header, or single ones, separated by a TAB (libcoap refuses a header with no whitespace at all after the colon - legal HTTP, but acceptance of a handshake is not what C05 is about; not generated)
+    tabbed = [(0, upgrade().replace(b': ', b':\t')), (0, upgrade().replace(b'Upgrade: websocket', b'Upgrade:\twebsocket')),
+              (0, upgrade().replace(b'Connection: Upgrade', b'Connection:\tUpgrade').replace(b'Version: 13', b'Version:\t13')),
+              (1, response().replace(b': ', b':\t'))]
+    hs_variants = list(tabbed)
+    hs_variants += [(0, upgrade(order=[5, 4, 3, 2, 1, 0])), (0, upgrade(eol=b'\n')), (0, upgrade(spell=1)), (0, upgrade(extra=[b'Origin: http://example.org', b'X-Empty:  ']))]
     hs_variants += [(0, upgrade(extra=[agent(k)])) for k in (100, 140, 145, 146, 147, 150, 157, 158, 159, 160, 161, 175, 300)]
     hs_variants += [(0, upgrade(extra=[agent(158), agent(158), agent(60)])), (0, upgrade(extra=[agent(20)], order=[0, 1, 2])[:-2] + agent(400) + b'\r\n\r\n')]
     hs_variants += [(1, response(order=[3, 2, 1, 0])), (1, response(eol=b'\n')), (1, response(extra=[b'Server: libcoap-test', b'Date: today']))]
@@ -307,7 +324,7 @@ def gen(tier, rnd):
         case(sl, [1] * n, ws=1, http=Hh, role=role_)
         for sz in (2, 3, 5, 7, 13, 14, 15, 16, 28, 29, 64, 145, 146, 147, 159, 160, 161):
             case(sl, [sz] * (n // sz + 1), ws=1, http=Hh, role=role_)
-        for c1 in (range(1, Hh + 3) if tier == 'thorough' else rnd.sample(range(1, Hh + 3), 25)):
+        for c1 in (range(1, Hh + 3) if tier == 'thorough' or (role_, hsb) in tabbed else rnd.sample(range(1, Hh + 3), 25)):
             case(sl, cuts_to_chunks(n, [c1]), ws=1, http=Hh, role=role_)
         for _ in range(10 if tier == 'quick' else 200):
             cs = sorted(rnd.sample(range(1, n), rnd.randint(2, 6)))
